@@ -296,6 +296,131 @@ def run(ctx):
                    f'numbered consecutively in list order', file=f, line=n.lineno)
     ctx.setcount('add_sites', nadd)
     ctx.floor('add_sites', 20)
+    # (6b) "the last step produces the answer": a step that a planning function hands back as ITS result is the step added to the plan last.  Typestate per
+    #      variable: cur = "is plan.steps[-1] right now".  Adding a step (directly or through a callee) ends the cur-ness of everything else.
+    by_name = {}
+    for f, fn in all_fns:
+        by_name.setdefault(fn.name, []).append((f, fn))
+
+    def callee_name(c):
+        if isinstance(c.func, ast.Attribute):
+            return c.func.attr
+        if isinstance(c.func, ast.Name):
+            return c.func.id
+        return None
+    may_add = set(ADDERS)
+    for _ in range(8):
+        before = set(may_add)
+        for f, fn in all_fns:
+            if any(isinstance(n, ast.Call) and callee_name(n) in may_add for n in walk_no_nested(fn)):
+                may_add.add(fn.name)
+        if may_add == before:
+            break
+    ret_cur = set()
+    passthrough = {}         # function -> parameters it hands back unchanged (the result is current iff the argument is)
+
+    def is_last_index(e):
+        return isinstance(e, ast.Subscript) and norm(e.value).endswith('plan.steps') and norm(e.slice) == '-1'
+
+    def cur_expr(e, st):
+        if isinstance(e, ast.Name):
+            return e.id in st
+        if is_last_index(e):
+            return True
+        if isinstance(e, ast.Call):
+            nm = callee_name(e)
+            return nm in ADDERS or nm in ret_cur
+        if isinstance(e, ast.IfExp):
+            return cur_expr(e.body, st) and cur_expr(e.orelse, st)
+        return False
+
+    def cur_flow(fn):
+        params = [a.arg for a in fn.args.args if a.arg != 'self']
+
+        def calls_in(s_):
+            if isinstance(s_, (ast.If, ast.While)):
+                return [n for n in ast.walk(s_.test) if isinstance(n, ast.Call)]
+            if isinstance(s_, ast.For):
+                return [n for n in ast.walk(s_.iter) if isinstance(n, ast.Call)]
+            if isinstance(s_, (ast.With, ast.Try)):
+                return []
+            return [n for n in ast.walk(s_) if isinstance(n, ast.Call)]
+
+        def transfer(s_, st):
+            st = set(st)
+            adds = [c for c in calls_in(s_) if callee_name(c) in may_add]
+            if isinstance(s_, ast.Assign) and len(s_.targets) == 1 and isinstance(s_.targets[0], ast.Name):
+                t = s_.targets[0].id
+                inner_adds = [c for c in adds if c is not s_.value]
+                if inner_adds or (adds and not cur_expr(s_.value, st)):
+                    st = set()
+                elif adds:
+                    st = set()          # a new step was added: it is the only current one
+                if cur_expr(s_.value, st) or (adds and cur_expr(s_.value, set())):
+                    st.add(t)
+                else:
+                    st.discard(t)
+                return frozenset(st)
+            if adds:
+                # `self.plan.add_step(x)` as a statement: x is the current step now
+                named = [c.args[0].id for c in adds if callee_name(c) in ADDERS and c.args and isinstance(c.args[0], ast.Name)]
+                return frozenset(named[-1:]) if len(adds) == 1 else frozenset()
+            if isinstance(s_, (ast.For, ast.AugAssign)):
+                for x in ast.walk(s_.target):
+                    if isinstance(x, ast.Name):
+                        st.discard(x.id)
+            return frozenset(st)
+        return params, Flow(transfer, lambda a, b: a & b).run(fn, frozenset(params))
+    flows = {}
+    for _ in range(6):
+        before = (set(ret_cur), {k: set(v) for k, v in passthrough.items()})
+        for f, fn in all_fns:
+            if fn.name in ADDERS or fn.name.startswith('__'):
+                continue
+            params, res = cur_flow(fn)
+            flows[id(fn)] = res
+            rets = [(r, st) for r, st in res.returns if r.value is not None and not (isinstance(r.value, ast.Constant) and r.value.value is None)]
+            if not rets:
+                continue
+            pt = {r.value.id for r, st in rets if isinstance(r.value, ast.Name) and r.value.id in params and r.value.id in st}
+            own = [(r, st) for r, st in rets if not (isinstance(r.value, ast.Name) and r.value.id in pt)]
+            # a planning function: some result of its own is a step it (or a callee) has just added
+            if fn.name in may_add and own and all(cur_expr(r.value, st) for r, st in rets):
+                ret_cur.add(fn.name)
+                if pt:
+                    passthrough[fn.name] = pt
+        if before == (ret_cur, passthrough):
+            break
+    ncur = 0
+    for f, fn in all_fns:
+        res = flows.get(id(fn))
+        for n in walk_no_nested(fn):
+            if not (isinstance(n, ast.Call) and callee_name(n) in passthrough and len(by_name.get(callee_name(n), [])) == 1):
+                continue
+            cf, cfn = by_name[callee_name(n)][0]
+            cparams = [a.arg for a in cfn.args.args if a.arg != 'self']
+            for pname in passthrough[callee_name(n)]:
+                i = cparams.index(pname)
+                arg = n.args[i] if i < len(n.args) else next((k.value for k in n.keywords if k.arg == pname), None)
+                if arg is None:
+                    continue
+                ncur += 1
+                cur = n
+                st = None
+                while cur is not None and res is not None:
+                    if isinstance(cur, ast.stmt) and id(cur) in res.at:
+                        st = res.at[id(cur)]
+                        break
+                    cur = getattr(cur, '_parent', None)
+                ok = cur_expr(arg, st or frozenset())
+                ctx.ob('C09.answer-is-last', f'{fn_label(n)}:{callee_name(n)}({pname}={norm(arg)[:40]})', ok,
+                       f'{fn_label(n)}: {callee_name(n)}() hands its argument `{pname}` back as the result when it has nothing to add, and here it receives '
+                       f'`{norm(arg)[:60]}`, which is not the step added to the plan last on every path: the planning result is then a step in the middle of the plan, '
+                       f'while the executor and the nested-select planner take plan.steps[-1] as the answer', file=f, line=n.lineno,
+                       witness='with a as (select * from int1.t), b as (select * from int2.u) select * from a')
+    ctx.setcount('passthrough_call_sites', ncur)
+    ctx.floor('passthrough_call_sites', 3)
+    ctx.sample({'functions_returning_the_current_step': sorted(ret_cur)[:40], 'passthrough': {k: sorted(v) for k, v in passthrough.items()}})
     # (7) steps remembered for later reference by top-level steps are never of a kind that can sit inside a map-reduce partition -------------------
     part_kinds = set()
     for f, fn in all_fns:
